@@ -44,6 +44,18 @@ CHECKS = {
  "C10": dict(cat="exploration", tech="client-boundary history recording + offline serial-order search (DFS with memoisation) against a sequential model; multi-thread stress legs",
    text="2-4 sessions with CREATE/DROP TABLE on colliding names, INSERT, DELETE, SELECT run concurrently on current-thread (perturbed) and multi-thread (2-16 workers) runtimes; a checker searches for a serial order consistent with session order that reproduces every acknowledged result, explains every failure and yields the final state, which must also be there after reopen; panics and stuck sessions are violations.",
    note="Per-session order only. Search budget exhaustion is inconclusive. Multi-thread legs are stress.", ref="6 C10"),
+ "C01": dict(cat="exploration", tech="differential runtime monitoring (optimizer on vs off on the live database) + single-rule translation checks executed on real data, rule attribution through the optimizer hook",
+   text="Leg A: generated queries with PRAGMA enable/disable_optimizer on memory and disk layouts, real or mocked statistics; disagreements are attributed by bisecting the hook's rule deny-list. Leg B: each rewrite rule applied alone at single matches on a growing pool of plans (bound, optimized, previously validated rewrites), both sides executed by the real executor. Evidence names the rules fired, validated alone, and never reached.",
+   note="Reference = unoptimized execution (no reference for subqueries in leg A). Non-executable intermediate forms are inconclusive. Derived-table select items are kept non-constant (known finding with sentinel).", ref="6 C01"),
+ "C11": dict(cat="exploration", tech="differential runtime monitoring of hand-built physical plans through executor::build + independent Python nested-loop/group-by reference",
+   text="For the same inputs, nested-loop / hash / merge join of every join type, simple / hash / sort aggregation and limit-over-order vs top-N are executed by the real executor on tables with chosen chunking, NULL and duplicate keys, INT vs BIGINT keys, empty sides; all implementations must agree with each other and with the reference.",
+   note="Plans are built through the public Expr enum; hash/merge join of inner/outer type only with a true residual (executor contract).", ref="6 C11"),
+ "C14": dict(cat="exploration", tech="kernel-level runtime monitor against an independent scalar interpreter (arbitrary raw bits under NULL) + optimizer on/off differential for constant folding",
+   text="Array kernels (arithmetic, comparison, AND/OR/NOT, ||, unary minus, CASE selection, integer casts) over all accepted operand type combinations on batches of 0..200 rows with NULL slots carrying arbitrary raw bits are judged row by row against a scalar SQL interpreter; overflow must be an error, x/0 NULL, a row alone must equal the row in its batch. Constant expressions: folded (optimizer on) vs run-time (off).",
+   note="NaN/inf not used in comparisons. LIKE/substring/extract are not driven by the kernel leg.", ref="6 C14"),
+ "C19": dict(cat="exploration", tech="law-checking runtime monitor over value pools + cross-implementation coherence through SQL on both engines",
+   text="Equality/order/hash laws over all pairs and triples of boundary+random pools of 13 types, comparison kernels vs DataValue::cmp, print->parse through the string cast and the CSV field parser; SQL leg: ORDER BY, <, join equality, GROUP BY, DISTINCT, MIN/MAX must induce the same relations on stored values on both engines.",
+   note="Calendar values from SQL-reachable ranges. Cells compared as printed (decimals by value, -0.0 = 0.0).", ref="6 C19"),
 }
 
 def main():
